@@ -521,7 +521,7 @@ func (t *tr) goStmt(g *ast.GoStmt) ast.Stmt {
 	}
 	var pre []ast.Stmt
 	fun := call.Fun
-	if _, isLit := fun.(*ast.FuncLit); !isLit {
+	if _, isLit := fun.(*ast.FuncLit); !isLit && !t.isDeclaredFunc(fun) {
 		if id, ok := fun.(*ast.Ident); !(ok && t.isBuiltinName(id)) {
 			f := t.fresh("f")
 			pre = append(pre, define([]ast.Expr{f}, fun))
@@ -538,6 +538,29 @@ func (t *tr) goStmt(g *ast.GoStmt) ast.Stmt {
 	lit := &ast.FuncLit{Type: &ast.FuncType{Params: &ast.FieldList{}}, Body: &ast.BlockStmt{List: []ast.Stmt{&ast.ExprStmt{X: inner}}}}
 	pre = append(pre, &ast.ExprStmt{X: t.call("Go", site, lit)})
 	return &ast.BlockStmt{List: pre}
+}
+
+// isDeclaredFunc: a package-level function named directly (possibly generic and instantiated by inference, which
+// a value copy `f := name` would not compile for); there is nothing to evaluate at the go statement.
+func (t *tr) isDeclaredFunc(e ast.Expr) bool {
+	var id *ast.Ident
+	switch v := e.(type) {
+	case *ast.Ident:
+		id = v
+	case *ast.SelectorExpr:
+		if _, ok := v.X.(*ast.Ident); ok {
+			id = v.Sel
+		}
+	}
+	if id == nil {
+		return false
+	}
+	fn, ok := t.info.Uses[id].(*types.Func)
+	if !ok {
+		return false
+	}
+	sig, _ := fn.Type().(*types.Signature)
+	return sig != nil && sig.Recv() == nil
 }
 
 func (t *tr) isBuiltinName(id *ast.Ident) bool {
